@@ -31,6 +31,35 @@ CHECKS = {
     },
 }
 
+CHECKS["C11"] = {
+    "pkg": "coalesceh",
+    "quick": {"wall_s": 25, "race_wall_s": 15, "race_max_runs": 1200},
+    "thorough": {"wall_s": 300, "race_wall_s": 180, "race_max_runs": 1800},
+    "rule": "Scenario: 1..4 producer tasks (Insert over 2..4 items, Len, IsClosed; some end with Close, the ONCE pattern), an optional "
+            "closer and canceller, one consumer looping Next(ctx), all under the seeded scheduler with select polling order drawn from "
+            "the tape. Oracles: porcupine against a FIFO-with-coalescing model, stamp clauses (insert after Close returned is refused, "
+            "no context error before cancellation), lost wake-up = consumer still blocked at quiescence with items pending, queue "
+            "closed or context cancelled. Non-trivial: a consumer and >= 3 operations.",
+    "real": ["coalesce (instrumented)", "context (std)"],
+    "stub": [],
+    "assumptions": ["an Insert that overlaps Close may be accepted (the statement covers insertions that completed before Close)"],
+}
+
+CHECKS["C06"] = {
+    "pkg": "matchh",
+    "quick": {"wall_s": 25, "race_wall_s": 12, "race_max_runs": 1000},
+    "thorough": {"wall_s": 300, "race_wall_s": 120, "race_max_runs": 1800},
+    "rule": "Three scenario kinds: (conc) 1..3 clients adding/removing distinct queries and 1..3 updaters issuing Update / UpdateOnce "
+            "(multi-path notifications sharing one updated set) concurrently under the seeded scheduler, checked with must/may windows on "
+            "invoke/return stamps against the compatibility relation of the statement; (pairs) the finite space of query x update path "
+            "pairs of length 0..4 over {a,b,*} walked in chunks of 200 (probe pairs-chunk-NNN per chunk; all chunks are hit in the quick "
+            "tier), including silence after remove and the unaffected second client; (tree) every leaf ctree.Query(q) returns is offered to "
+            "a subscriber of q. Non-trivial: >= 2 tasks with at least one registration and one update, or any pairs/tree run.",
+    "real": ["match (instrumented)", "ctree (instrumented)"],
+    "stub": [],
+    "assumptions": ["a client never holds the same query twice at once (match keeps a set of clients per query)"],
+}
+
 UNDER_CONSTRUCTION = "check under construction, not claimed yet"
 NOT_APPLICABLE = {p: UNDER_CONSTRUCTION for p in ["C%02d" % i for i in range(1, 21)]}
 NOT_APPLICABLE["C19"] = ("pure functions of their input (path indexing, value conversion): no schedule, clock, fault, peer or "
@@ -38,6 +67,22 @@ NOT_APPLICABLE["C19"] = ("pure functions of their input (path indexing, value co
                          "vocabulary (DESIGN.md 8)")
 
 LEVELS = {
+    "C06": {
+        "text": "Seeded search over interleavings of register / remove / update tasks on the real matcher with interval (must/may) oracles "
+                "written from the statement, plus complete coverage of the finite query x path space to length 4 and the Query-implies-"
+                "streamed relation on generated trees. Evidence, not proof (the finite table is covered completely, which the evidence reports).",
+        "design_ref": "7 C06",
+        "note": "The compatibility relation in matchh.compat is the trusted reading of the statement. The server-level clause (registrations removed when a Subscribe RPC ends) is checked by the subscribe harness.",
+        "technique": "deterministic simulation: seeded scheduler + interval oracles + systematic pair table",
+    },
+    "C11": {
+        "text": "Seeded search over interleavings of producers, closer, canceller and the consumer on the real queue; the closed-check->insert "
+                "and failed-next->select gaps are scheduling points and the select choice is drawn from the tape. Histories are checked for "
+                "linearizability against a FIFO-with-coalescing model, lost wake-ups are detected as simulator quiescence. Evidence, not proof.",
+        "design_ref": "7 C11",
+        "note": "Trusts porcupine and the sequential model in coalesceh.step; histories capped at ~40 operations.",
+        "technique": "deterministic simulation: seeded scheduler + porcupine linearizability + quiescence-based lost-wake-up detection",
+    },
     "C09": {
         "text": "Seeded exploration of single-task operation sequences against a prefix-free map model, every result and the full "
                 "content compared after each operation, plus differential delete-vs-query agreement on the same state. Evidence, not proof.",
